@@ -84,7 +84,7 @@ def ob_sector_walk(pid, maxlen):
         "total = catalogued length; bytes handed on are those of the sector just read; unreadable sector => BadFileSystem; visitor can stop the walk",
         "metadata bytes symbolic with file length <= %d (<= %d sectors), failure/stop points symbolic, one symbolic probe offset per piece" % (maxlen, k - 1),
         CAT_FUNCS + ["CatalogEntry::visit_file_body_piecewise", "std::function invoker", "BadFileSystem::BadFileSystem (dfs/exceptions.cc)"],
-        unwind=10, unwindset=[("read_block", 257), ("visit_file_body", k), ("h_sector_walk", 9), ("X_strlen", 64), ("X_mem", 64)],
+        unwind=10, unwindset=[("read_block", 257), ("visit_file_body", k), ("h_sector_walk", max(9, k + 3)), ("X_strlen", 64), ("X_mem", 64)],
         defines=("NDEBUG", "WALK_MAXLEN=%d" % maxlen), weight_gb=3, noop_re=EXC_CTORS)
 
 def ob_volume_access(pid):
@@ -187,7 +187,7 @@ def c13(tier):
 
 @prop("C02")
 def c02(tier):
-    obs = [ob_entry_fields("C02"), ob_fragment("C02", 3 if tier == "quick" else 31), ob_crc_step("C02")]
+    obs = [ob_entry_fields("C02"), ob_fragment("C02", 3 if tier == "quick" else 8), ob_crc_step("C02")]
     return obs, dict(assumptions=CXX_ASSUME)
 
 W_NAMES = "w_names.cc"
